@@ -181,7 +181,7 @@ def v3_items(bits, r, density, straddle=False, skipbits=True):
             elif k == 1:
                 emit(('i',))
             elif k == 2:
-                emit(('r', r.range(1, 0xEF)))
+                emit(('r', r.below(256)))         # the operand is an arbitrary byte, including ones that look like opcodes
             else:
                 sk = r.below(8)
                 chunk = [r.below(2) for _ in range(sk)] + list(bits[pos:pos + 8 - sk])
@@ -224,7 +224,7 @@ def hfe_v3_pack(bits, r, density, straddle=False, skipbits=True):
     return v3_bytes(v3_items(bits, r, density, straddle, skipbits))
 
 
-def hfe_image(tracks, sides, fm, v3=False, pad_last=True, opcode_rng=None, opcode_density=0, header_overrides=None, straddle=False, skipbits=True):
+def hfe_image(tracks, sides, fm, v3=False, pad_last=True, opcode_rng=None, opcode_density=0, header_overrides=None, straddle=False, skipbits=True, lut_exact=False):
     """tracks: list (per track) of list (per side) of cell lists"""
     hdr = bytearray(512)
     hdr[:] = b'\xFF' * 512
@@ -268,6 +268,8 @@ def hfe_image(tracks, sides, fm, v3=False, pad_last=True, opcode_rng=None, opcod
                     data += chunk.ljust(256, b'\x00' if not fm else b'\x00')
         off = base + len(body) // 512
         tl = len(data) if (pad_last or t != len(tracks) - 1) else nblk * 512
+        if lut_exact:
+            tl = 2 * n          # the LUT records the bytes of track data (both sides), not the 512-byte blocks they occupy
         lut[4 * t:4 * t + 2] = off.to_bytes(2, 'little')
         lut[4 * t + 2:4 * t + 4] = tl.to_bytes(2, 'little')
         body += data
@@ -276,23 +278,33 @@ def hfe_image(tracks, sides, fm, v3=False, pad_last=True, opcode_rng=None, opcod
     return bytes(hdr) + bytes(lut) + bytes(body)
 
 
-def hxcmfm_image(tracks, sides):
+def hxcmfm_image(tracks, sides, gap_rng=None, shuffle=False):
     """tracks: list (per track) of list (per side) of MFM cell lists"""
     ntr = len(tracks)
     hdr = bytearray(b'HXCMFM\x00')
     hdr += ntr.to_bytes(2, 'little') + bytes([sides]) + (300).to_bytes(2, 'little') + (250).to_bytes(2, 'little') + bytes([4])
     tl_off = 0x13
     hdr += tl_off.to_bytes(4, 'little')
-    entries = bytearray()
-    blobs = []
+    keys = [(t, sd) for t in range(ntr) for sd in range(sides)]
+    blob_of = {k: pack_msb(tracks[k[0]][k[1]]) for k in keys}
+    place = list(keys)
+    if shuffle and gap_rng is not None:
+        place = gap_rng.shuffle(place)          # the order of the track data in the file need not be the order of the list
     off = tl_off + 11 * ntr * sides
-    for t in range(ntr):
-        for sd in range(sides):
-            blob = pack_msb(tracks[t][sd])
-            entries += t.to_bytes(2, 'little') + bytes([sd]) + len(blob).to_bytes(4, 'little') + off.to_bytes(4, 'little')
-            off += len(blob)
-            blobs.append(blob)
-    return bytes(hdr) + bytes(entries) + b''.join(blobs)
+    where = {}
+    body = bytearray()
+    for k in place:
+        if gap_rng is not None:
+            pad = gap_rng.choice([0, 0, 1, 3, 512 - (off % 512) if off % 512 else 0, (4 - off % 4) % 4])
+            body += bytes(gap_rng.below(256) for _ in range(pad))
+            off += pad
+        where[k] = off
+        body += blob_of[k]
+        off += len(blob_of[k])
+    entries = bytearray()
+    for (t, sd) in keys:
+        entries += t.to_bytes(2, 'little') + bytes([sd]) + len(blob_of[(t, sd)]).to_bytes(4, 'little') + where[(t, sd)].to_bytes(4, 'little')
+    return bytes(hdr) + bytes(entries) + bytes(body)
 
 
 def tracks_of_image(img, ntracks, spt, sides, mfm, lay_for=None, interleaved_sides=False):
